@@ -64,6 +64,18 @@ const (
 //
 // Gt - for two decimals ONLY. If leftValue > rightValue.
 func CompareValues(left r.Element, right r.Element, verb uint8) (bool, error) {
+	// (equality only) a plain value is simply unequal to whatever is not a plain value - an
+	// object, a method, a type - on whichever side it stands, as with 为 / ==
+	if verb == CmpEq {
+		switch right.(type) {
+		case *Null, *Number, *String, *Bool, *Array, *HashMap:
+			switch left.(type) {
+			case *Null, *Number, *String, *Bool, *Array, *HashMap:
+			default:
+				return false, nil
+			}
+		}
+	}
 	switch vl := left.(type) {
 	case *Null:
 		if _, ok := right.(*Null); ok {
